@@ -89,9 +89,9 @@ DRV_TRUSTED = ["gopacket v1.1.19 decoders/serialisers, x/net/icmp.ParseMessage, 
                "simulated Source/Sink and synctest clock in /verif/harness; verif-tagged constructors in /repo (export_verif.go)"]
 for _pid, _num, _labs, _sig in [
     ("C01", 1, ["drv"], {"1": "a hop was reported for a packet that is not a genuine reply to this run's probe with that TTL from that address", "1.9": "a hop from bytes the model cannot even parse"}),
-    ("C02", 2, ["drv", "eng"], {"2": "a catalogue reply form was not recognised", "2.1": "a catalogue reply form was credited to the wrong TTL or responder", "2.2": "ACK without SACK blocks did not end the SACK run as not-supported", "2.3": "parallel engine: a reply readable one poll interval before the deadline was not accepted"}),
+    ("C02", 2, ["drv", "eng"], {"6.1": "a catalogue reply form is recognised by the matcher but rejected by the capture filter the entry point installs", "2": "a catalogue reply form was not recognised", "2.1": "a catalogue reply form was credited to the wrong TTL or responder", "2.2": "ACK without SACK blocks did not end the SACK run as not-supported", "2.3": "parallel engine: a reply readable one poll interval before the deadline was not accepted"}),
     ("C04", 4, ["drv", "doc", "eng"], {"4": "destination flag differs from the protocol's proof of arrival from the target", "7": "engine: reported hop (address, RTT, destination flag) is not the reply kept by the merge rule"}),
-    ("C05", 5, ["drv", "eng"], {"5": "RTT is negative or not (processing instant - send instant of a probe with that TTL); engine kept a later duplicate"}),
+    ("C05", 5, ["drv", "eng"], {"1": "the RTT was measured for a packet that does not answer the probe it was credited to (another probe's send time)", "5": "RTT is negative or not (processing instant - send instant of a probe with that TTL); engine kept a later duplicate"}),
     ("C06", 6, ["drv", "eng"], {"6.1": "probe malformed: version/IHL, TTL byte, length or checksum", "6.2": "probe flow fields differ from the run's", "6.3": "identifier shared with the probe of another TTL", "6": "emission order / pacing / stop-after-destination violated"}),
     ("C09", 9, ["drv"], {"9.1": "the driver panicked", "9.2": "a non-empty inbound packet produced a run-aborting error", "9.3": "not-supported from a packet other than the permitted SACK case"}),
 ]:
@@ -99,3 +99,19 @@ for _pid, _num, _labs, _sig in [
         nontrivial="any case (every case is a distinct operation on a real driver); distinct by input bytes", trivial_classes=[],
         signatures=dict(_sig, **{"9": "a valid scripted run returned an error", "10": "engine panicked", "3.1": "out-of-range reply produced a path"}),
         trusted_base=DRV_TRUSTED + (ENG_TRUSTED if "eng" in _labs else []), assumptions=["driver table holds what SendProbe stored (replayed from the observed sends)"])
+
+PAR_RULE = ("Parameter / policy lab: (8) the real RunTraceroute over the simulated wire behind packets.NewSourceSink with TTL bounds from {-1,0,1,2,255,256,257} x {-1,0,1,5,254..258,300,511,65541}, ports {0,1,80,65535,65536,65616,-1,131070}, "
+            "udp/tcp/icmp/unknown protocol, syn/default/unknown method, IPv4 and IPv6 loopback targets: error vs the TTLs, address, port and protocol actually on the wire; (9) the HTTP handler's query parsing on numeric/non-numeric/absent values; "
+            "(10) target literal forms (IPv4, IPv6, bracketed, with and without port) x default ports around 0/1/65535/65536; (11) performTCPFallback with random error trees (wrap depth <= 4, NotSupportedError at any depth, errors.Join); "
+            "(12) the real runTracerouteOnce for syn/sack/prefer_sack against a loopback listener the harness owns (accept count = connections opened) with handshake segments synthesised on the simulated wire: SACK-permitted with/without timestamps, no SACK-permitted, ACKs without SACK blocks, port closed, handshake never captured, and injected filter/send/read failures.")
+PAR_TRUSTED = ["real sockets are used only for LocalAddrForHost / reserveLocalPort / the loopback dial; every packet is written to the simulated sink", "net.SplitHostPort, netip.ParseAddr, strconv.Atoi, errors.Is/As/Join are modelled only"]
+PROPS["C19"] = dict(num=19, labs=["par", "drv", "eng"], rule=PAR_RULE + " " + DRV_RULE, nontrivial="any case", trivial_classes=[],
+    signatures={"19.1": "TTL byte of an emitted probe differs from the TTL asked of the driver", "19.2": "a request with TTL bounds outside 1..255 (or min > max) was executed", "19.3": "probes on the wire do not cover exactly the requested TTL range",
+                "19.4": "probes went to another address", "19.5": "probes went to another port / a port outside 1..65535 was used", "19.6": "probes used another protocol", "19.7": "a valid target literal was rejected or parsed to another address/port",
+                "19.8": "a port outside 1..65535 was accepted", "19.9": "the process crashed", "9": "a valid scripted run returned an error", "10": "engine panicked", "3.1": "out-of-range reply produced a path",
+                "6": "emission order / pacing violated"},
+    trusted_base=PAR_TRUSTED + DRV_TRUSTED, assumptions=[])
+PROPS["C20"] = dict(num=20, labs=["par"], rule=PAR_RULE, nontrivial="fallback-selector and real-run cases (class % 8 in {4, 5})", trivial_classes=[],
+    signatures={"20.1": "method sack produced a SYN trace / neither a SACK trace nor an error", "20.2": "method syn attempted SACK (opened a TCP connection)", "20.3": "prefer_sack: SYN fallback taken although SACK is available, or not taken although it is unavailable",
+                "20.4": "prefer_sack: a non-capability SACK failure was masked or lost its cause", "20.9": "crashed"},
+    trusted_base=PAR_TRUSTED, assumptions=["the loopback listener's accept count equals the TCP connections the run opened"])
